@@ -58,7 +58,19 @@ for d in sorted(glob.glob(os.path.join(ROOT, "seeded", "*"))):
     summ = re.sub(r"\s+", " ", am.get("summary", ""))[:150]
     rows.append(f"| {sid} | {summ} | {best} | `{sig}` | {extra} |")
 
-print("| seeded change | what it breaks (agent's summary, truncated) | caught by the property's quick check | first signature | other checks |")
-print("|---|---|---|---|---|")
-for r in rows:
-    print(r)
+import sys
+table = ["| seeded change | what it breaks (agent's summary, truncated) | caught by the property's quick check | first signature | other checks |",
+         "|---|---|---|---|---|"] + rows
+print("\n".join(table))
+if "--write-design" in sys.argv:
+    # rewrite the table between the markers in DESIGN.md §8.2
+    dp = os.path.join(ROOT, "DESIGN.md")
+    d = open(dp).read()
+    b, e = "<!-- SEEDED-TABLE-BEGIN -->", "<!-- SEEDED-TABLE-END -->"
+    if "SEEDED-TABLE-PLACEHOLDER" in d:
+        d = d.replace("SEEDED-TABLE-PLACEHOLDER", b + "\n" + e)
+    i, j = d.index(b), d.index(e)
+    caught = sum(1 for r in rows if "| yes |" in r)
+    head = f"{len(rows)} seeded changes, {caught} caught by the quick check of the property they break (after the strengthening described above):\n\n"
+    d = d[:i] + b + "\n" + head + "\n".join(table) + "\n" + d[j:]
+    open(dp, "w").write(d)
